@@ -1666,10 +1666,118 @@ def signature(fn):
     return 'def %s(%s) defaults=%s decorators=%s' % (fn.name, ', '.join(parts), defaults, decos)
 
 
+def _mentions_value(v, target, memo):
+    if v == target:
+        return True
+    if isinstance(v, tuple):
+        if id(v) in memo:
+            return False
+        memo.add(id(v))
+        return any(_mentions_value(x, target, memo) for x in v)
+    return False
+
+
+_KW_READS = ('pop', 'get', 'items', 'keys', 'values', 'copy', '__contains__')
+
+
+def _hoist_kwargs(seq, kw):
+    """The function's own `**kwargs` dict is fresh and, as long as it is only read through pop / get / items / keys /
+    values / copy / `in` / `**`, invisible to everything the function calls.  `kwargs.pop(<literal>, <default>)` and
+    `kwargs.get(<literal>[, <default>])` cannot raise and touch nothing else: within a straight-line run they are moved in
+    front of preceding events that do not involve `kwargs` - the order in which options are picked out of `kwargs`
+    relative to unrelated calls is not behaviour."""
+    target = ('param', kw)
+
+    def total(n):
+        if not (isinstance(n, Event) and n.kind == 'call' and not n.kw and n.args):
+            return False
+        f = n.args[0]
+        if not (isinstance(f, tuple) and len(f) == 3 and f[0] == 'meth' and f[1] == target and f[2] in ('pop', 'get')):
+            return False
+        rest = n.args[1:]
+        if not rest or rest[0][0] != 'const' or any(_mentions_value(a, target, set()) for a in rest):
+            return False
+        return len(rest) == 2 if f[2] == 'pop' else len(rest) in (1, 2)
+
+    # is kwargs used in any way that could make it visible elsewhere?
+    escapes = []
+
+    def scan_value(v, memo, holder):
+        if not isinstance(v, tuple) or id(v) in memo:
+            return
+        memo.add(id(v))
+        if v == target:
+            escapes.append(holder)
+            return
+        if len(v) == 3 and v[0] == 'meth' and v[1] == target and v[2] in _KW_READS:
+            return
+        if v and v[0] in ('cmp',) and len(v) == 4 and v[1] in ('in', 'not in') and v[3] == target:
+            scan_value(v[2], memo, holder)
+            return
+        for x in v:
+            scan_value(x, memo, holder)
+
+    def scan(nodes):
+        for n in nodes:
+            if isinstance(n, Event):
+                memo = set()
+                for a in n.args:
+                    scan_value(a, memo, n)
+                for k, a in n.kw:
+                    if k == '**' and a == target:
+                        continue
+                    scan_value(a, memo, n)
+            elif isinstance(n, If):
+                scan_value(n.cond, set(), n)
+                scan(n.a)
+                scan(n.b)
+            elif isinstance(n, Region):
+                scan_value(n.head, set(), n)
+                for v in n.init.values():
+                    scan_value(v, set(), n)
+                for l, part in n.parts:
+                    scan([x for x in part if isinstance(x, Node)])
+            elif isinstance(n, Term):
+                if n.val is not None:
+                    scan_value(n.val, set(), n)
+                for r, d in (n.state or []):
+                    for v in d.values():
+                        scan_value(v, set(), n)
+    scan(seq)
+    if escapes:
+        return seq
+
+    def walk(nodes):
+        i = 0
+        while i < len(nodes):
+            n = nodes[i]
+            if isinstance(n, If):
+                walk(n.a)
+                walk(n.b)
+            elif isinstance(n, Region):
+                for l, part in n.parts:
+                    walk(part)
+            elif total(n):
+                j = i
+                while j > 0:
+                    p = nodes[j - 1]
+                    if not isinstance(p, Event) or p.kind == 'yield':
+                        break
+                    if any(_mentions_value(a, target, set()) for a in p.args) or any(_mentions_value(a, target, set()) for k, a in p.kw):
+                        break
+                    nodes[j - 1], nodes[j] = nodes[j], nodes[j - 1]
+                    j -= 1
+            i += 1
+    walk(seq)
+    return seq
+
+
 def normal_form(fn):
     """Canonical text of the function's behaviour, or raises Unsupported."""
     ex = Exec(fn)
     seq = ex.run()
+    if fn.args.kwarg is not None:
+        seq = _hoist_kwargs(seq, fn.args.kwarg.arg)
     return signature(fn) + '\n' + Printer(seq).text()
 
 
